@@ -46,8 +46,11 @@ Spellings(x) ==
                  (IF s = "ldap" THEN "LDAP" ELSE "LDAPS") \o ":///", s \o ":/">>)
     [] OTHER -> NetSpell(x.scheme, x.host, x.port)
 
-XRows == [scheme : XSchemes, host : XHosts, port : XPorts, path : XPaths, stream : XStreams,
-          starttls : XStarttls, timeout : XTimeouts, endpoint : XEndpoints]
+\* ("huge" behaves as "none" in Decide; its rows with a silent endpoint - where the only observation is "still pending" - are left
+\* to "none")
+XRows == {x \in [scheme : XSchemes, host : XHosts, port : XPorts, path : XPaths, stream : XStreams,
+                 starttls : XStarttls, timeout : XTimeouts, endpoint : XEndpoints] :
+            x.timeout = "huge" => x.endpoint # "silent"}
 
 Init == r \in XRows
 Next == r' = r
